@@ -128,7 +128,18 @@ def check_scale(inp):
     return None if got == exp else {'observed': got, 'expected': exp}
 
 
-ORACLES = {'order': check_order, 'idem': check_idem, 'invert': check_invert, 'scale': check_scale}
+def check_ascending(inp):
+    """whatever the modifiers, the chord tones come out in ascending pitch order from the bass (the tones are sorted per
+    pitch after the replacements, additions and omissions were applied), and a replacement that names a tone the figure
+    does not have acts as the addition of the same name (seed C02-7 left those fallback tones unsorted)"""
+    c = mk(inp)
+    for name, ps in (('chord_extension_pitches', list(map(int, c.chord_extension_pitches))), ('chord_pitches', list(map(int, c.chord_pitches)))):
+        if ps != sorted(ps):
+            return {'observed': {name: ps}, 'expected': {name: sorted(ps)}}
+    return None
+
+
+ORACLES = {'order': check_order, 'idem': check_idem, 'invert': check_invert, 'scale': check_scale, 'ascending': check_ascending}
 
 
 def gen_chords(ctx, n, valid=True):
@@ -209,7 +220,7 @@ def oracle(ctx):
             mk(inp)
         except Exception:
             continue          # not a valid chord for the library: nothing is claimed
-        for name in ('order', 'idem', 'invert', 'scale'):
+        for name in ('order', 'idem', 'invert', 'scale', 'ascending'):
             ctx.count('oracle', key=name + str(inp), bucket=name)
             try:
                 r = ORACLES[name]({**inp, 'perm_seed': rng.randrange(1 << 30)} if name == 'order' else inp)
